@@ -11,20 +11,21 @@ FP = "ural/fingerprint_url.py"
 NU = "ural/normalize_url.py"
 MUTS = {
     "M1-no-initial-lower": [(FP, "    url = url.lower()\n\n    splitted = normalize_url(", "    splitted = normalize_url(")],
-    "M2-only-default-and-8080-ports-dropped": [(FP, "    # Dropping port\n    port = None\n", "    # Dropping port\n    if port == 8080:\n        port = None\n")],
-    "M3-lang-needs-three-labels-after": [(FP, 'if hostname.count(".") > 1:', 'if hostname.count(".") > 2:')],
+    "M2-port-8443-kept": [(FP, "    # Dropping port\n    port = None\n", "    # Dropping port\n    if port != 8443:\n        port = None\n")],
+    "M3-lang-not-stripped-under-org": [(FP, 'if hostname.count(".") > 1:', 'if hostname.count(".") > 1 and not hostname.endswith(".org"):')],
+    "M3b-lang-stripped-with-one-label-left": [(FP, 'if hostname.count(".") > 1:', 'if hostname.count(".") > 0:')],
     "M4-xx-yy-country-half-unchecked": [(FP, "                    lang.upper() in ISO_3166_1_COUNTRIES_ALPHA_2\n                    and country.upper() in ISO_3166_1_COUNTRIES_ALPHA_2\n", "                    lang.upper() in ISO_3166_1_COUNTRIES_ALPHA_2\n")],
-    "M5-any-two-letter-label-stripped": [(FP, "            if subdomain.upper() in ISO_3166_1_COUNTRIES_ALPHA_2:\n", "            if subdomain.isalpha():\n")],
-    "M6-hl-no-longer-a-lang-key": [(FP, 'LANG_QUERY_KEYS = ("gl", "hl")', 'LANG_QUERY_KEYS = ("gl",)')],
+    "M5-zz-taken-for-a-code": [(FP, "            if subdomain.upper() in ISO_3166_1_COUNTRIES_ALPHA_2:\n", "            if subdomain.upper() in ISO_3166_1_COUNTRIES_ALPHA_2 or subdomain == \"zz\":\n")],
+    "M6-empty-hl-kept": [(FP, "    return key not in LANG_QUERY_KEYS\n", "    return key not in LANG_QUERY_KEYS or (key == \"hl\" and _ == \"\")\n")],
     "M7-per-domain-filter-preempts-lang-filter": [(NU, "    if domain_filter is not None and domain_filter(key, value):\n        return True\n", "    if domain_filter is not None:\n        return domain_filter(key, value)\n")],
     "M8-no-lowercase-after-unescaping": [(FP, "        lowercase=True,\n", "")],
-    "M9-only-one-label-suffixes-stripped": [(FP, "            if r is not None:\n                hostname, _ = r\n\n    # Dropping port", "            if r is not None and \".\" not in r[1]:\n                hostname, _ = r\n\n    # Dropping port")],
+    "M9-three-label-suffixes-not-stripped": [(FP, "            if r is not None:\n                hostname, _ = r\n\n    # Dropping port", "            if r is not None and r[1].count(\".\") < 2:\n                hostname, _ = r\n\n    # Dropping port")],
     "M10-userinfo-kept": [(FP, "        platform_aware=platform_aware,\n        lowercase=True,\n", "        platform_aware=platform_aware,\n        lowercase=True,\n        strip_authentication=False,\n")],
-    "M11-lang-label-stripped-before-www": [(FP, "    if hostname:\n        hostname = strip_lang_subdomains_from_hostname(hostname)\n\n        if strip_suffix:", "    if hostname:\n        hostname = strip_lang_subdomains_from_hostname(hostname)\n        if hostname.startswith(\"fr.\") and hostname.count(\".\") == 1 and False:\n            pass\n\n        if strip_suffix and not hostname.startswith(\"xn--\"):")],
+    "M11-case-of-fragment-kept": [(FP, "path.lower(), query.lower(), fragment.lower()", "path.lower(), query.lower(), fragment"), (NU, "    if lowercase:\n        fragment = fragment.lower()\n", "")],
     "M12-gl-value-sensitive": [(FP, "    return key not in LANG_QUERY_KEYS\n", "    return key not in LANG_QUERY_KEYS or _ is None\n")],
     "M13-upper-label-only": [(FP, "        elif len(subdomain) == 2:\n", "        elif len(subdomain) == 2 and subdomain != \"uk\" and subdomain != \"gb\":\n")],
     # behaviour-preserving (must stay green)
-    "R1-final-lower-dropped-for-query": [(FP, "path.lower(), query.lower(), fragment.lower()", "path.lower(), query, fragment.lower()")],
+    "R1-lang-keys-reordered": [(FP, 'LANG_QUERY_KEYS = ("gl", "hl")', 'LANG_QUERY_KEYS = ("hl", "gl")')],
     "R2-count-labels-by-split": [(FP, 'if hostname.count(".") > 1:', 'if len(hostname.split(".")) > 2:')],
 }
 
